@@ -63,6 +63,10 @@ CLAIMED = {
           "Stream 1 builds a value a, a value b equal to a or changed in exactly one place, and a again along generated construction paths (literal, arithmetic, concatenation/slice/tiling/bit operations so binaries are ropes, views or tiled binaries, fields through variables, spread override, generic and dispatch functions, module import, closures, a round trip through a process) and compares them in eleven forms (pins both ways, repeated binders, literal patterns, nested) in every packaging variant; stream 2 compares closures by definition and captures; stream 3 mints refs in 2-5 processes on 1-4 simulated workers and compares all pairs. Exploration only.",
           "Values are widened at a union type so the comparison is executed at run time. Nil leaves are excluded from stream 1 (a variable bound to nil is narrowed to non-nil by the compiler — a separate recorded defect); nil equality has a directed probe. Each comparison form runs in its own closure because a match used as a value narrows its operands for the rest of the scope (also recorded).",
           "DESIGN.md §4 C13"),
+  "C08": ("proptest-generated (scrutinee type, test type, enumerated literal values, test form) x packaging variants; oracle: inhabitation model over the generated type trees",
+          "For a generated 't and a related 's (1-3 mutations of 't, or independent) up to 8 first-order values of 't are written as literals and tested with `=('s)y`, `='s`, a typed tuple pattern, or a typed receive after mailing the values in order; an accepted value must be a member of 's, a member must be accepted, the receive must take the earliest member; each program runs as compiled, tree-shaken, after a JSON round trip and merged behind programs that register the same tuple names in other shapes. Exploration only.",
+          "Values are literals, so 'compile-time type contained in the pattern type' coincides with membership; construction through widening routes is exercised by C13. Programs the compiler rejects are discarded (counted).",
+          "DESIGN.md §4 C08"),
   # id: (technique, level text, level note, design_ref)
   "C18": ("proptest-generated inputs + corpus mutation (prefix/token delete/dup/subst/transpose/wide-char) + bracket nests to depth 100; oracle: no panic, located error, deterministic production budget",
           "Generated-input search over front-end inputs: every run parses ~10^5 generated/mutated texts and compiles the accepted ones, checking no panic, error position inside the input on a char boundary with consistent line/column, and a polynomial production budget via hook H5. Exploration only: absence is not established.",
